@@ -144,7 +144,10 @@ def unsplit_result(
 ) -> str:
     """Unsplit a URL without any normalization."""
     if netloc or (scheme and scheme in USES_AUTHORITY) or url[:2] == "//":
-        if url and url[:1] != "/":
+        if url and url[:1] != "/" and not netloc:
+            # a rootless path follows the scheme directly; "//" + "/" would change it
+            url = f"{scheme}:{url}"
+        elif url and url[:1] != "/":
             url = f"{scheme}://{netloc}/{url}" if scheme else f"{scheme}:{url}"
         else:
             url = f"{scheme}://{netloc}{url}" if scheme else f"//{netloc}{url}"
